@@ -27,6 +27,8 @@ pub trait Prop: Sync {
 }
 
 pub mod c01;
+pub mod c02;
+pub mod c03;
 pub mod c15;
 pub mod c19;
 pub mod shapes;
@@ -35,6 +37,8 @@ pub mod common;
 pub fn lookup(id: &str) -> Option<&'static dyn Prop> {
     match id {
         "C01" => Some(&c01::C01),
+        "C02" => Some(&c02::C02),
+        "C03" => Some(&c03::C03),
         "C15" => Some(&c15::C15),
         "C19" => Some(&c19::C19),
         _ => None,
